@@ -11,7 +11,7 @@ CLAIMS = {
  "C07": ("model_checking", "TLC checks the pool protocol model (spec/data/PoolQueue.tla, one action per atomic access) exhaustively for 2-3 threads incl. refinement of the abstract queue H_Queue and liveness; recorded Call/Ret histories of the real FIFO/FIFO_WAIT/RANDWS pools (all access modes) are validated against H_Queue by TLC (linearizability search).", SC + "histories of <=3 concurrent callers.", "DESIGN.md 6 C07"),
  "C08": ("model_checking", "H_Barrier is model-checked; BarCall/BarRet histories over several rounds, reinit, mixed ULT/external callers are validated: nobody leaves round k before N entered it; a tasklet caller is rejected (ABT_ERR_BARRIER) and is not an arrival; a stuck run is a missed release.", SC + "ABT_xstream_barrier is pthread_barrier in this configuration and is exercised only in free mode.", "DESIGN.md 6 C08"),
  "C09": ("model_checking", "H_Eventual and H_Future (linearizable objects incl. callback-before-ready) are model-checked; histories of set/wait/test/reset by ULT, tasklet and external callers incl. 0..3 compartments and late sets are validated by TLC.", SC, "DESIGN.md 6 C09"),
- "C10": ("model_checking", "H_RWLock is model-checked; rd/wr/unlock histories incl. a reader rendezvous inside the read section are validated; stuck runs are progress violations.", SC, "DESIGN.md 6 C10"),
+ "C10": ("model_checking", "RWLockProto.tla (the monitor of internal mutex, condition variable, write_flag and reader_count as coded) is model-checked exhaustively incl. liveness, its skip-broadcast variant is rejected (lost wake-up witness); H_RWLock is model-checked; rd/wr/unlock histories incl. a reader rendezvous inside the read section are validated; stuck runs are progress violations.", SC, "DESIGN.md 6 C10"),
  "C19": ("model_checking", "H_Cond with deadlines under a virtual clock (past/near/far deadlines, timed and untimed waiters mixed, ULT and external) and H_Queue with blocking pops (every unit pushed while the single consumer waits) are validated against real executions.", SC + "time is virtual in serialized mode; real-time behaviour only in the thorough tier's free mode.", "DESIGN.md 6 C19"),
 }
 NA_REASON = "check under construction in this round (DESIGN.md section 9); not yet claimed"
